@@ -60,3 +60,11 @@ impl MatchableTrait for MetaSegment {
         );
     }
 }
+
+/// Verification hooks (only with `--cfg sqruff_verif`): read-only accessors.
+#[cfg(sqruff_verif)]
+impl MetaSegment {
+    pub fn verif_kind(&self) -> SyntaxKind {
+        self.kind
+    }
+}
